@@ -4,7 +4,7 @@ from .facts import callee_name, callee_path, fmt, strip
 from .rules_layout import short, up
 
 PERMUTE = {"swap"}
-REVIEW = {"view_mut", "slice_axis_mut", "slice_move", "slice_mut", "lanes_mut", "reborrow", "into_producer",
+REVIEW = {"view_mut", "slice_axis_mut", "slice_axis_move", "slice_move", "slice_mut", "lanes_mut", "reborrow", "into_producer",
           "from", "and", "split_at", "index_axis_mut", "index_axis_move", "into_dimensionality", "into_dyn",
           "multi_slice_mut", "multi_slice_move", "into_iter", "axis_iter_mut", "outer_iter_mut", "rows_mut",
           "columns_mut", "axis_chunks_iter_mut", "deref_mut", "deref", "borrow_mut", "as_mut", "into", "into_view",
